@@ -4,7 +4,7 @@ from __future__ import annotations
 
 import ast
 
-from .terms import C, G, is_call, is_const, is_lit, lit_const_values
+from .terms import C, G, is_call, is_const, is_lit, is_param_rooted, lit_const_values
 from .walker import CONTAINERS, NUM
 
 HASHABLE = frozenset(["str", "int", "float", "bool", "NoneType", "bytes", "tuple", "type"])
@@ -324,6 +324,16 @@ def _identity(w, e, s, l, r, positive, outs):
     if _is_enum(l) and _is_enum(r):
         outs.append((s, "val", C((l == r) == positive)))  # enum members are singletons
         return
+    if is_lit(l, "object") or is_lit(r, "object"):
+        # a sentinel made by object(): identical to itself, and to nothing that existed before it
+        # was made or that is a value of another kind
+        if l == r:
+            outs.append((s, "val", C(positive)))
+            return
+        other = r if is_lit(l, "object") else l
+        if is_const(other) or is_lit(other) or is_param_rooted(other):
+            outs.append((s, "val", C(not positive)))
+            return
     if is_const(r) and r[2] is None:
         a, b = s.copy(), s.copy()
         a.add(("type", l, frozenset(["NoneType"])))
